@@ -4,6 +4,8 @@ From Coq.Strings Require Import Byte.
 From Gopki.Model Require Import Bytes Base64 Pem Der Asn1 Text Algs Glue Pkcs8 Ext Rdn Time X509 Generate HashView Dir Plan Run Ops Cli Merge Validate Current.
 From Gopki.Spec Require Import RegenSpec DirInv MergeSpec ValidateSpec X509Spec ExtSpec AdmissionSpec PolicySpec.
 From Gopki.Proofs Require Import RunProofs ExtProofs PlanProofs WfProofs X509Proofs DerProofs Asn1Proofs TimeRangeProofs RdnProofs GenerateProofs ValidateProofs TimeProofs AlgsProofs Base64Proofs PolicyProofs MergeProofs CliProofs OpsProofs FaultProofs HistoryProofs HashViewProofs Pkcs8Proofs RecoverProofs PemTornProofs AdmissionProofs PemProofs GlueProofs.
+From Gopki.Model Require Import Effective.
+From Gopki.Proofs Require Import ExtFieldsProofs.
 Import ListNotations.
 
 (* the certificate's extension list is the compiled effective list, same length, same order *)
@@ -46,3 +48,18 @@ Theorem C06_raw_binary_any_length :
     payload <> [] -> read_raw (binary_prefix ++ b64_encode payload) = Some payload.
 Proof. exact read_raw_binary. Qed.
 Print Assumptions C06_raw_binary_any_length.
+
+(* each built extension carries the OID of its kind (the configured OID for custom extensions) and the configured critical flag *)
+Theorem C06_oid_and_critical :
+  forall (sha1 : bytes -> bytes) (x : any_ext) (bits ibits : bytes) (e : ext),
+    build_ext cur_fx sha1 x bits ibits = Some e ->
+    Some (x_oid e) = any_ext_oid x /\ x_crit e = cfg_crit x.
+Proof. exact built_extension_oid_and_critical. Qed.
+Print Assumptions C06_oid_and_critical.
+
+(* a value given as raw is the extension's value byte for byte, for every extension kind *)
+Theorem C06_raw_value_unchanged :
+  forall (sha1 : bytes -> bytes) (x : any_ext) (bits ibits : bytes) (e : ext),
+    cfg_raw x <> [] -> build_ext cur_fx sha1 x bits ibits = Some e -> raw_of cur_fx (cfg_raw x) = Some (x_value e).
+Proof. exact raw_value_reaches_the_extension. Qed.
+Print Assumptions C06_raw_value_unchanged.
